@@ -25,7 +25,11 @@ META = {
              "state (Hv/Query/Bucket.lean: lazy build over a snapshot, pending buffer, drain, OnInsert/OnUpdate/OnDelete) and "
              "bucket_tracks_store proves it files exactly the live records under the canonical key of their current body after "
              "every history, given the extracted notification facts; floats are k/4 with |k| small, integers below 2^53 (no NaN/Inf, "
-             "no lossy int-float conversion); filters are body-field comparison / IN / emptiness legs; forcing the scan route by "
+             "no lossy int-float conversion); filters are body-field comparison / IN / emptiness legs plus a geo-distance leg generated as an "
+             "opaque, never-hinted leg (residual_carries_opaque; phrase / vector / nested-slice legs go the same way through "
+             "cloneGroupHeader, whose field list is pinned against hydrapb.FilterGroup, and are not generated); msgpack times are whole "
+             "seconds; IncludedKeys / ExcludeKeys / KeysOnly are applied by the per-row loop after the route is chosen and are not "
+             "generated; both stream handlers (GetByIndexStream, GetByIndexStreamFromMany) are run and extracted; forcing the scan route by "
              "wrapping the filter as the single sub-group of an OR group (planOr bypasses on sub-groups; verified by extract)."),
     "design_ref": "§8 C08",
 }
@@ -43,6 +47,7 @@ FINDINGS.update({
     "C08-bucket-misses-update": "SaveFunction does not tell the built field buckets about a modified treasure: the accelerated route serves it under its old field value",
     "C08-bucket-misses-delete": "deleteHandler does not tell the built field buckets: the accelerated route still serves the deleted treasure",
     "C08-bucket-build-drops-pending": "mutations that arrive while a bucket build is in flight are not replayed by DrainPending",
+    "C08-bucket-notified-before-add": "SaveFunction tells the buckets about a new key before the record is in beaconKey: a bucket build that starts in between snapshots without the record and has no notification in its buffer",
     "C08-bucket-served-before-drain": "a field bucket is EqualityInitialized as soon as BuildEquality returns, before its builder drained the pending buffer: a reader that comes in that window is served without the saves/deletes that completed meanwhile",
 })
 FINDINGS["C08-window-on-key-index"] = ("with the key index and a time window the scan route ignores the window (findInKeyBeacon) while "
@@ -253,7 +258,7 @@ def judge(c):
             stats["held_builds"] = stats.get("held_builds", 0) + 1
         elif f[0] == "release":
             sh.held = False
-        if f[0] != "q" or len(f) != 9:
+        if f[0] != "q" or len(f) not in (9, 10):
             if impl != model:
                 mism.append(i)
             continue
@@ -315,7 +320,7 @@ def spec_violated(rep):
             sh.put(f[1], int(f[2]), int(f[3]), int(f[4]), None)
         elif f[0] == "del" and len(f) == 2:
             sh.delete(f[1])
-        elif f[0] == "q" and len(f) == 9 and i == last:
+        elif f[0] == "q" and len(f) in (9, 10) and i == last:
             r = split_reply(impl)
             if impl.startswith("conc-diff"):
                 return "`%s`: concurrent first queries on a not yet built bucket saw a different answer than a lone caller: %s" % (op, impl)
